@@ -35,6 +35,12 @@ enum Op<A: Algebra> {
     Ask(usize, usize),
     Lb(usize, A::Pred),
     LbRev(usize, A::Pred),
+    /// rebuild the tree from the items its own point queries return (they carry whatever pending state a leaf
+    /// accumulated): from_slice / from_iter over ask(i, i) for all i; the logical array is unchanged
+    RecycleSlice,
+    RecycleIter,
+    /// new(n2, ask(i, i)): fill with an item that came out of a query
+    RecycleNew(usize, usize),
 }
 
 fn op_kind<A: Algebra>(op: &Op<A>) -> &'static str {
@@ -47,6 +53,9 @@ fn op_kind<A: Algebra>(op: &Op<A>) -> &'static str {
         Op::Ask(..) => "ask",
         Op::Lb(..) => "lower_bound",
         Op::LbRev(..) => "lower_bound_rev",
+        Op::RecycleSlice => "from_slice_of_queried_items",
+        Op::RecycleIter => "from_iter_of_queried_items",
+        Op::RecycleNew(..) => "new_with_queried_item",
     }
 }
 
@@ -217,6 +226,17 @@ impl<A: Algebra> Live<A> {
                 self.tree = t;
                 self.shadow = s;
             }
+            Op::RecycleSlice | Op::RecycleIter => {
+                let n = self.shadow.len();
+                let items: Vec<A::Item> = (0..n).map(|i| lib!(self.tree.ask(i, i))).collect();
+                self.tree = if matches!(op, Op::RecycleSlice) { lib!(Segtree::from_slice(&items)) } else { lib!(Segtree::from_iter(items.into_iter())) };
+            }
+            Op::RecycleNew(i, n2) => {
+                let it = lib!(self.tree.ask(*i, *i));
+                let e = self.shadow[*i].clone();
+                self.tree = lib!(Segtree::new(*n2, it));
+                self.shadow = vec![e; *n2];
+            }
             Op::Set(i, e) => {
                 self.shadow[*i] = e.clone();
                 let item = A::leaf(e);
@@ -346,11 +366,20 @@ impl<A: Algebra> Live<A> {
                             ranges.push((l, r));
                         }
                     }
-                } else {
+                } else if n <= 200 {
                     for i in 0..n {
                         ranges.push((i, i));
                     }
                     for _ in 0..4 * n {
+                        ranges.push(gen_range(rng, n));
+                    }
+                } else {
+                    // large trees: a sample (the probe would otherwise dominate the run)
+                    for _ in 0..256 {
+                        let i = rng.usize_below(n);
+                        ranges.push((i, i));
+                    }
+                    for _ in 0..1024 {
                         ranges.push(gen_range(rng, n));
                     }
                 }
@@ -405,8 +434,8 @@ fn gen_op<A: Algebra>(rng: &mut Rng, live: &Live<A>, judge: Judge, nonneg: bool,
     let n = live.shadow.len();
     // set, modify, ask, lb, lbrev, reconstruct
     let w: [u32; 6] = match judge {
-        Judge::Fold => [15, 36, 28, 8, 8, 3],
-        Judge::Search => [14, 40, 4, 20, 20, 2],
+        Judge::Fold => [15, 36, 28, 8, 8, 5],
+        Judge::Search => [14, 40, 4, 20, 20, 3],
     };
     match rng.weighted(&w) {
         0 => Op::Set(rng.usize_below(n), A::gen_elem(rng, nonneg)),
@@ -421,8 +450,13 @@ fn gen_op<A: Algebra>(rng: &mut Rng, live: &Live<A>, judge: Judge, nonneg: bool,
         3 => Op::Lb(rng.usize_below(n), A::gen_pred(rng, &live.shadow)),
         4 => Op::LbRev(rng.usize_below(n), A::gen_pred(rng, &live.shadow)),
         _ => {
-            let n2 = *rng.pick(sizes);
-            gen_construct::<A>(rng, n2.min(A::max_n()), nonneg)
+            let n2 = (*rng.pick(sizes)).min(A::max_n());
+            match rng.below(6) {
+                0 => Op::RecycleSlice,
+                1 => Op::RecycleIter,
+                2 => Op::RecycleNew(rng.usize_below(n), n2.min(129)),
+                _ => gen_construct::<A>(rng, n2, nonneg),
+            }
         }
     }
 }
@@ -432,7 +466,7 @@ fn run_random_case<A: Algebra>(case_seed: u64, judge: Judge, thorough: bool, rep
     let mut rng = Rng::new(case_seed);
     let nonneg = judge == Judge::Search && A::search_needs_nonneg();
     let mut sizes: Vec<usize> = SIZES_Q.iter().cloned().filter(|&n| n <= A::max_n()).collect();
-    if thorough && rng.chance(1, 40) {
+    if thorough && rng.chance(1, 300) {
         sizes = SIZES_T.iter().cloned().filter(|&n| n <= A::max_n()).collect();
         if sizes.is_empty() {
             sizes = vec![A::max_n()];
@@ -659,6 +693,7 @@ type P2 = PairAlg<MinAddI64, MaxAddI64>;
 type P3 = PairAlg<SumAddI64, PairAlg<MinAddI64, MaxAddI64>>;
 type P4 = PairAlg<PairAlg<SumAddI32, MinAddI32>, PairAlg<MaxAddI32, PairAlg<SumAddI32, MaxAddI32>>>;
 type PW = PairAlg<FreeWord, LetterCount>;
+type PV = PairAlg<LetterCount, FreeWord>;
 type PH = PairAlg<HashWord, PairAlg<LetterCount, HashWord>>;
 type PN = PairAlg<MinI64, PairAlg<MaxI64, SumI64>>;
 
@@ -683,6 +718,7 @@ macro_rules! for_each_algebra {
         $mac!(P3, 2);
         $mac!(P4, 2);
         $mac!(PW, 3);
+        $mac!(PV, 2);
         $mac!(PH, 2);
         $mac!(PN, 1);
     };
